@@ -9,8 +9,8 @@ COQ_HEADER = "From Plotink Require Import Base.Prelude Base.PyStr Model.Serial3 
 COQ_RUN = "run06"
 COQ_CASE_TYPE = "case06"
 SHARD = 150
-RULE = ("every helper of ebb_motion.py (function style) and ebb3_motion.py / EBB3.var_write (class style) called against an all-acknowledging fake port, "
-        "with arguments from {0, +-1, 750, 751, 1500, 2^31-1, -2^31, random}, optional arguments absent / zero / non-zero, motor resolutions -2..8, pauses "
+RULE = ("every helper of ebb_motion.py (function style) and ebb3_motion.py / EBB3.var_write (class style) called against an all-acknowledging fake port (acknowledging at once, after 1-3 timed-out reads, or after a blank line), "
+        "alone and (class style) after 1-3 earlier helper calls on the same object incl. disconnect/reattach and every ordered pair of single-motor requests, with arguments from {0, +-1, 750, 751, 1500, 2^31-1, -2^31, random}, optional arguments absent / zero / non-zero, motor resolutions -2..8, pauses "
         "-5..4000 incl. the chunk boundaries; the bytes written (every line must end in exactly one CR) are compared with the model and with the documented text; "
         "non-trivial = a helper with at least one optional or zero-valued argument, or a pause of more than one chunk")
 TRUSTED = ["the documented command table Spec/EbbDoc.v, transcribed from the docstrings of the repository", "fake port acknowledging every command"]
@@ -42,16 +42,39 @@ def generate(rng, tier):
         add(("E_BConfig", rng.randint(0, 7), rng.randint(0, 1), rng.randint(0, 1))); add(("E_BSet", rng.randint(0, 7), rng.randint(0, 1)))
         add(("E_PenPos", rng.random() < 0.5, _i(rng))); add(("E_PenRate", rng.random() < 0.5, _i(rng))); add(("E_Servo", _i(rng), rng.choice([None, 0, 1])))
         add(("E_Var", rng.randint(0, 255), rng.randint(0, 31))); add(("E_ClearSteps",)); add(("E_ClearAcc",))
+    # class layer: the text a helper emits must not depend on what the object did before (state carried between calls):
+    # 1-3 earlier helper calls on the same object, then the judged call; every pair of single-motor requests systematically
+    def e_helper():
+        return rng.choice([("E_MotorsOn", rng.randint(-1, 6), rng.randint(-1, 6)), ("E_MotorsOn", rng.choice([0, 1, 3]), rng.choice([0, 2, 5])), ("E_MotorsOff",),
+                           ("E_Pen", rng.random() < 0.5, _i(rng), _o(rng)), ("E_Pause", _pause(rng)), ("E_XY", _i(rng), _i(rng), _i(rng)),
+                           ("E_Abs", _i(rng), _o(rng), _o(rng)), ("E_Servo", _i(rng), rng.choice([None, 0, 1])), ("E_BConfig", rng.randint(0, 7), rng.randint(0, 1), rng.randint(0, 1)),
+                           ("E_PenPos", rng.random() < 0.5, _i(rng)), ("E_Var", rng.randint(0, 255), rng.randint(0, 31)), ("E_ClearSteps",), ("E_Reconnect",)])
+    single = [(a, 0) for a in range(1, 6)] + [(0, b) for b in range(1, 6)]
+    for (a1, b1) in single[:: (1 if tier != "quick" else 3)]:
+        for (a2, b2) in single:
+            cases.append({"h": ("E_MotorsOn", a2, b2), "pre": [("E_MotorsOn", a1, b1)], "family": "after/E_MotorsOn"})
+    for _ in range(4 * n):
+        h = e_helper()
+        while h[0] == "E_Reconnect": h = e_helper()
+        cases.append({"h": h, "pre": [e_helper() for _ in range(rng.randint(1, 3))], "family": "after/" + h[0]})
+    # the text written must not depend on how promptly the board acknowledges: a third of the cases run against a port whose reads
+    # time out 1-3 times (or deliver a blank line) before each acknowledgement
+    for c in cases:
+        r = rng.random()
+        if r < 0.25: c["delay"] = rng.choice([1, 1, 2, 3]); c["family"] += "/slow-ack"
+        elif r < 0.33 and not c["h"][0].startswith("L_"): c["blank"] = True; c["family"] += "/blank-line-before-ack"
     return cases
 
 class AckPort:
     """acknowledges everything: legacy commands get OK, EBB3 requests get their own name back"""
-    def __init__(self, legacy):
+    def __init__(self, legacy, delay=0, blank=False):
         self.legacy, self.writes, self.queue = legacy, [], []
+        self.delay, self.blank = delay, blank        # reads that time out (b'') / a blank line before each acknowledgement
     def write(self, data):
         self.writes.append(data)
         t = data.decode("ascii").strip()
         nm = t[0] if (len(t) == 1 or t[1] == ",") else t[:2]
+        self.queue += [b""] * self.delay + ([b"\r\n"] if self.blank else [])
         if self.legacy: self.queue.append(b"OK\r\n")
         else: self.queue.append((nm + (",0,0" if nm == "QE" else "")).encode() + b"\r\n")
         return len(data)
@@ -63,7 +86,7 @@ class AckPort:
 def run_impl(c):
     h = c["h"]; k, a = h[0], h[1:]
     legacy = k.startswith("L_")
-    port = AckPort(legacy)
+    port = AckPort(legacy, c.get("delay", 0), c.get("blank", False))
     if legacy:
         M = ebb_motion
         if k == "L_XY": M.doXYMove(port, a[0], a[1], a[2], False)
@@ -87,6 +110,23 @@ def run_impl(c):
             finally: M.ebb_serial.min_version = orig
     else:
         o = ebb3_motion.EBBMotionWrap(); o.port = port; o.version = "3.0.3"; o.version_parsed = ebb3_serial.parse("3.0.3")
+        for ph in c.get("pre", []):          # earlier calls on the same object: not judged, only there to leave state behind
+            if ph[0] == "E_Reconnect":
+                o.disconnect(); o.port = port
+            else:
+                _e_call(o, ph[0], ph[1:])
+        if o.err is not None: return {"raise": "recorded error: %s" % o.err}
+        del port.writes[:]
+        _e_call(o, k, a)
+        if o.err is not None: return {"raise": "recorded error: %s" % o.err}
+    out = []
+    for d in port.writes:
+        t = d.decode("latin-1")
+        out.append(t[:-1] if t.endswith("\r") and not t.endswith("\r\r") else t + "<CR?>")
+    return {"writes": out}
+
+def _e_call(o, k, a):
+    if True:
         if k == "E_XY": o.xy_move(a[0], a[1], a[2])
         elif k == "E_Abs": o.abs_move(a[0], a[1], a[2])
         elif k == "E_Pause": o.timed_pause(a[0])
@@ -101,12 +141,6 @@ def run_impl(c):
         elif k == "E_Var": o.var_write(a[0], a[1])
         elif k == "E_ClearSteps": o.clear_steps()
         elif k == "E_ClearAcc": o.clear_accumulators()
-        if o.err is not None: return {"raise": "recorded error: %s" % o.err}
-    out = []
-    for d in port.writes:
-        t = d.decode("latin-1")
-        out.append(t[:-1] if t.endswith("\r") and not t.endswith("\r\r") else t + "<CR?>")
-    return {"writes": out}
 
 def _arg(x):
     if x is None: return "None"
@@ -128,7 +162,7 @@ def nontrivial(c, r):
     return any(x is None or x == 0 for x in h[1:]) or (h[0].endswith("Pause") and h[1] > 750)
 
 def explain(c, r):
-    return {"helper": [str(x) for x in c["h"]], "written": r.get("writes"), "raise": r.get("raise")}
+    return {"port": {"empty_reads_before_each_ack": c.get("delay", 0), "blank_line_before_each_ack": c.get("blank", False)}, "earlier_calls_on_the_same_object": [[str(x) for x in p] for p in c.get("pre", [])], "helper": [str(x) for x in c["h"]], "written": r.get("writes"), "raise": r.get("raise")}
 
 def _zero_dropped(c, r):
     """finding class D5: an optional argument supplied as 0 is dropped by a truthiness test"""
